@@ -51,7 +51,7 @@ def run_probes():
 def model_walker(tier, rep):
     eras = QUICK_ERAS if tier == "quick" else ALL_ERAS
     r = vlib.tlc_mc("Calendar.tla", "Calendar.cfg", "calendar_walk_" + tier, workers=8 if tier == "quick" else 12,
-                    heap="6g", want_gen=False, constants={"EraIdx": "{" + ", ".join(map(str, eras)) + "}"},
+                    heap="4g", want_gen=False, constants={"EraIdx": "{" + ", ".join(map(str, eras)) + "}"},
                     timeout=3000)
     return r, eras
 
@@ -114,11 +114,13 @@ def execute(bins, impl, parts, tag):
     return outs, unsupported
 
 
-def pipeline(tier, rep, calibrate=True):
+def pipeline(tier, rep, calibrate=True, walk=True):
+    """calibrate=False / walk=False exist only for the mutation self-test (tools/props/C11.py, VERIF_SELFTEST=1):
+    they skip the libstdc++ calibration and the model checking of the walker, not any judgement of etl."""
     t0 = time.time()
-    nparts = 8 if tier == "quick" else 16
+    nparts = 8 if tier == "quick" else 12
     with ThreadPoolExecutor(max_workers=2) as bg:
-        walker = bg.submit(model_walker, tier, rep)          # MC of the walker runs beside the binding
+        walker = bg.submit(model_walker, tier, rep) if walk else None   # MC of the walker runs beside the binding
         ar = model_arith(tier)
         rep.add_mc("CalendarArith", ar)
         gen = ar["gen"]
@@ -127,7 +129,7 @@ def pipeline(tier, rep, calibrate=True):
         bins = build_drivers(flags)
         parts = split_inputs(gen, nparts, tier)
         traces, unsupported = execute(bins, "etl", parts, tier)
-        tv = vlib.tv_parallel("CalendarTrace.tla", "CalendarTrace.cfg", traces, "calendar_tv_etl_" + tier, par=nparts, heap="3g")
+        tv = vlib.tv_parallel("CalendarTrace.tla", "CalendarTrace.cfg", traces, "calendar_tv_etl_" + tier, par=nparts, heap="2g")
         rep.add_tv("Calendar", tv, len(gen))
         not_drivable = sorted(set(unsupported) | {"probe " + k + " does not compile/link" for k, v in probes.items() if not v})
         rep.cov["modules"]["Calendar"].update({"not_drivable": not_drivable, "probes": probes,
@@ -139,17 +141,18 @@ def pipeline(tier, rep, calibrate=True):
             rep.sample({"module": "Calendar", "input": [g for g in gen if g["fam"] == "ym_m"][len(gen) // 7]})
         if calibrate:
             ctr, _ = execute(bins, "std", parts, tier)
-            ctv = vlib.tv_parallel("CalendarTrace.tla", "CalendarTrace.cfg", ctr, "calendar_tv_std_" + tier, par=nparts, heap="3g")
+            ctv = vlib.tv_parallel("CalendarTrace.tla", "CalendarTrace.cfg", ctr, "calendar_tv_std_" + tier, par=nparts, heap="2g")
             if ctv["deviations"]:
                 d = ctv["deviations"][0]
                 raise vlib.ModelFailure("calibration: libstdc++ std::chrono deviates from the Calendar spec "
                                         "(spec/projection error): %s %s expected %s"
                                         % (d["kind"], json.dumps(d.get("ev"))[:500], json.dumps(d.get("expected"))[:200]))
             rep.cov["modules"]["Calendar"]["calibration_events_std"] = ctv["events"]
-        wr, eras = walker.result()
-        rep.add_mc("Calendar[walker]", wr)
-        rep.cov["modules"]["Calendar[walker]"].update({"eras_walked": len(eras), "days_walked": wr["states"],
-                                                       "years": [400 * (min(eras) - 82), 400 * (max(eras) - 82) + 399]})
+        if walker is not None:
+            wr, eras = walker.result()
+            rep.add_mc("Calendar[walker]", wr)
+            rep.cov["modules"]["Calendar[walker]"].update({"eras_walked": len(eras), "days_walked": wr["states"],
+                                                           "years": [400 * (min(eras) - 82), 400 * (max(eras) - 82) + 399]})
     rep.cov["exhaustive"] = True
     vlib.log("[calendar] pipeline %.1fs" % (time.time() - t0))
     return tv
